@@ -189,7 +189,7 @@ def worker(cfg):
 
 def replay(v):
     driver.assert_repo_import()
-    if v['cfg'].get('kind') in ('polar', 'complex', 'float'):
+    if v['cfg'].get('kind') in ('polar', 'complex', 'float', 'display'):
         # the formatter link (rendering of the number handed over): harness/C18.py
         from harness import C18
         rep = sx.run_concrete(C18.execute, v['cfg'], sx.inputs_from_json(v.get('inputs', {})), v.get('labels') or {})
@@ -246,11 +246,13 @@ def main(tier):
     # Cartesian and polar complex renderings, radians and degrees, in decades away from the two recorded C18 findings)
     from harness import C18
     fc = [dict(c, pid_=PID) for c in C18.configs(tier, driver.seed_of())[0]
-          if (c['kind'] == 'polar' and c['k'] in (0, 4) and c['p'] in (3, 4)) or (c['kind'] == 'complex' and min(c['kr'], c['ki']) >= 0)]
+          if (c['kind'] == 'polar' and c['k'] in (0, 4) and c['p'] in (3, 4)) or (c['kind'] == 'complex' and min(c['kr'], c['ki']) >= 0)
+          or (c['kind'] == 'display' and c['helper'] in ('real', 'abs', 'complex', 'polar', 'sin', 'power', 'pq') and c['p'] in (3, 4) and -5 <= c['k'] <= 4 and c['k'] != -1
+              and c.get('kp') != -1 and c.get('ki', 0) != -1 and c.get('kq', 0) != -1)]
     driver.run_pool(driver.guarded(C18.worker), fc, rep, chunksize=2)
     return rep.finish(
         explanation='bounded symbolic verification of the annotation plumbing: for drawings (series loops with reversed / unreversed DC, AC, complex sources, R, L, C, impedance, lamp; symbolic values; symbolic frequency) every adapter getter in both directions and every draw_* factory is executed with the formatter and the label classes replaced by recording stubs; z3 / normal form shows that the number handed to the formatter equals the circuit solution quantity in the element\'s reference direction, negated exactly when reverse is requested, with the right unit, frequency and unchanged display options; the sinusoidal annotation carries the peak phasor (= sqrt(2) x the RMS phasor of the complex annotation), the real annotation equals Re(sqrt(2) x complex at w = 0); arrow directions are reverse XOR element-reversed; the declarative description filters unknown parameters; unknown element names raise',
-        assumptions=['the chain is checked link by link: the adapters / factories with the formatters as recording stubs, and the formatter (ScientificComplex, Cartesian and polar, radians and degrees; ScientificFloat) on a symbolic value with the C18 machinery for a subset of decades (the full decade range is C18); the phase / frequency text of print_sinosoidal is not discharged', 'connectivity of the drawing is the subject of C13 (concrete coordinates here)',
+        assumptions=['the chain is checked link by link: the adapters / factories with the formatters as recording stubs, and the formatter (ScientificComplex, Cartesian and polar, radians and degrees; ScientificFloat; the Display.py helpers print_real / print_abs / print_complex / print_sinosoidal / print_active_power / print_active_reactive_power) on a symbolic value with the C18 machinery for a subset of decades away from the recorded C18 findings (the full decade range is C18)', 'connectivity of the drawing is the subject of C13 (concrete coordinates here)',
                      'schemdraw label placement is stubbed', 'exact field arithmetic; contract stub for np.linalg.solve'],
         bounds={'drawings': 'series loops of a source and two passive symbols with ground; reversed and unreversed sources and resistors', 'solution kinds': ['real', 'complex', 'complex_w', 'time', 'declarative'],
                 'options': 'precision, polar, deg, hertz, sin combinations' + (' (all 8 for the time-domain adapter)' if tier == 'thorough' else ' (subset)')},
